@@ -963,6 +963,9 @@ func (e *Engine) evalCall(env *Env, n *ECall) (TV, error) {
 		v, err := e.evalTerm(env, n.Args[0])
 		return TV{v, nil}, err
 	}
+	if tv, handled, err := e.brSpec(env, n.Fun, n.Args); handled {
+		return tv, err
+	}
 	// spec functions
 	if sf, ok := e.cs.Specs[n.Fun]; ok {
 		return e.evalSpecCall(env, sf, n.Args)
